@@ -48,7 +48,7 @@ class WorkspaceGen:
         self.o = dict(
             roots=(1, 3), defs=(2, 9), max_depth=3, p_service=0.15, p_union=0.25, p_delim=0.4, p_family=0.3,
             p_ref=0.45, p_const=0.25, p_doc=0.25, p_pad=0.15, p_dep=0.1, p_port=0.15, p_uavcan=0.1,
-            p_cross_root=0.5, max_fields=5, max_cap=4, big_caps=False, p_split_root=0.0, p_rel=0.5, p_derive=0.0,
+            p_cross_root=0.5, max_fields=5, max_cap=4, big_caps=False, p_split_root=0.0, p_rel=0.5, p_derive=0.0, p_other_root_ns=0.0,
         )
         self.o.update(o)
         self.roots: list[dict] = []
@@ -75,7 +75,11 @@ class WorkspaceGen:
             for _ in range(rng.randint(0, 3)):
                 base = rng.choice(paths)
                 if len(base) < o["max_depth"]:
-                    p = base + [rng.choice(NS_NAMES)]
+                    comp = rng.choice(NS_NAMES)
+                    if rng.random() < o.get("p_other_root_ns", 0.0):
+                        # a nested namespace that carries the name of ANOTHER root namespace of the workspace (or of its own root)
+                        comp = rng.choice(names)
+                    p = base + [comp]
                     if not any(q[: len(p)] == p or [c.lower() for c in q[: len(p)]] == [c.lower() for c in p] for q in paths):
                         paths.append(p)
             self.ns_paths.append(paths)
